@@ -93,6 +93,11 @@ func c16(p Params) func() {
 		}
 		npipe := vsched.Choose(3, "pipelined")
 		when := vsched.Choose(2, "when") // 0: app frames right behind the first message, 1: after reading the verdict
+		if strings.HasPrefix(first.name, "prefix") || first.name == "nothing" {
+			// a truncated first message is followed by end of input, nothing else: bytes written behind it would
+			// complete the announced frame, and a lenient decoder (the JSON protocol) can then read a valid AUTH_CALL
+			npipe = 0
+		}
 		// the client may hang up right after its credentials, before the verdict can be delivered
 		hangup := false
 		if first.name == "auth_good" && verdict == "accept" && npipe == 0 {
